@@ -5,7 +5,7 @@
 From Coq Require Import List ZArith Bool Reals Lra Lia.
 From Flocq Require Import Core.Raux.
 From Inferno Require Import Base.Num Base.NumR Gen.NeuronDynamics Gen.NeuronAdaptation C03.Neuron C03.NeuronSpec
-  C03.ThresholdProofs C03.IntegrationProofs C03.NeuronProofs.
+  C03.ThresholdProofs C03.EulerProofs C03.NeuronProofs.
 Import ListNotations.
 Open Scope R_scope.
 
